@@ -4,4 +4,4 @@ CONSTANTS
   F = 16
   Pad = 4
   FixTail = FALSE
-INVARIANTS TypeOK CaseSane StepsAgree NeverUnmapped CorrectWhenAligned OverReadBounded WrongOnlyFromTail
+INVARIANTS TypeOK CaseSane StepsAgree ClosedFormOK NeverUnmapped CorrectWhenAligned OverReadBounded WrongOnlyFromTail
